@@ -46,7 +46,7 @@ inline long &liveConnections() { static long n = 0; return n; }
 #define Q_ASSERT(cond) do { if (!(cond)) throw verif::AssertFailed(#cond); } while (0)
 #define Q_UNREACHABLE() throw verif::Unreachable()
 // exactly like Qt: the argument must be a narrow string literal body that can be glued to u""
-#define QStringLiteral(str) QString(u"" str)
+#define QStringLiteral(str) QString::fromLiteral(u"" str)
 
 // ---------------------------------------------------------------------------- QString
 class QString {
@@ -55,6 +55,8 @@ public:
     QString(const char16_t *s) : d(s) {}
     QString(const char16_t *s, size_t n) : d(s, n) {}
     explicit QString(const std::u16string &s) : d(s) {}
+    // like Qt, the length of a literal comes from its size, so embedded NULs survive
+    template <size_t N> static QString fromLiteral(const char16_t (&s)[N]) { return QString(s, N - 1); }
     static QString fromUtf8(const char *s) {
         // UTF-8 -> UTF-16
         std::u16string out;
@@ -284,6 +286,18 @@ public:
     }
     size_t connectionCount() const { return conns.size(); }
     std::vector<std::shared_ptr<verif::ConnData>> conns;
+    // the one property of QObject itself
+    QString m_objectName;
+    QString objectName() const { return m_objectName; }
+    void setObjectName(const QString &v) {
+        verif::note(vname + ".setObjectName(s:" + v.hex() + ")");
+        if (m_objectName == v) return;
+        m_objectName = v;
+        objectNameChanged(v);
+    }
+    void objectNameChanged(const QString &a0) {
+        this->template activate<QObject, const QString &>(static_cast<void (QObject::*)(const QString &)>(&QObject::objectNameChanged), a0);
+    }
 };
 
 // ---------------------------------------------------------------------------- logging
